@@ -127,7 +127,7 @@ def render_lines(model, corruption=None):
             elif k == 'row-add-col':
                 toks.insert(c['pos'], c['token'])
                 seps.insert(0, ' ')
-            elif k == 'row-blank':
+            elif k in ('row-blank', 'row-is-header-again'):
                 pass
             elif k in ('row-text', 'row-date', 'row-time', 'row-utim-overlong'):
                 col = {'row-date': 1, 'row-time': 2, 'row-utim-overlong': 0}.get(k, c.get('col'))
@@ -137,6 +137,9 @@ def render_lines(model, corruption=None):
         index['rows'].append(len(lines))
         if c and c.get('row') == i and c['kind'] == 'row-blank':
             lines.append(c['token'])       # the whole data line wiped out
+            continue
+        if c and c.get('row') == i and c['kind'] == 'row-is-header-again':
+            lines.append(join_tokens(list(model['header']), list(model['header_seps'])))     # the header line where a data line should be
             continue
         lines.append(join_tokens(toks, seps) + r['trail'])
     return lines, index
@@ -345,7 +348,7 @@ def dat_corruptions(draw, model):
     nrows = len(model['rows'])
     kinds = ['header-rename', 'header-dup-replace', 'header-dup-insert']
     if nrows:
-        kinds += ['row-drop-col', 'row-add-col', 'row-text', 'row-date', 'row-time'] * 2 + ['row-utim-overlong', 'row-blank']
+        kinds += ['row-drop-col', 'row-add-col', 'row-text', 'row-date', 'row-time'] * 2 + ['row-utim-overlong', 'row-blank', 'row-is-header-again']
     kind = draw(st.sampled_from(kinds))
     c = {'kind': kind}
     if kind == 'header-rename':
@@ -376,6 +379,8 @@ def dat_corruptions(draw, model):
         elif kind == 'row-add-col':
             c['pos'] = draw(st.integers(0, len(header)))
             c['token'] = draw(st.one_of(number_tokens(), st.sampled_from(['0', '0.0', 'x'])))
+        elif kind == 'row-is-header-again':
+            pass        # (two files pasted together, a logger that re-writes its header): names are not values
         elif kind == 'row-blank':
             # a data line with nothing on it (empty, blanks, NULs): it does not match the header, whatever follows
             c['token'] = draw(st.sampled_from(['', ' ', '   ', '\t', ' \t ', '\x00\x00\x00']))
